@@ -64,7 +64,12 @@ def astep (a : A α) : Op α → A α × List (Out α)
   | .pushErr e => (apushErr a e, [])
   | .next =>
     match a.cons with
-    | .idle => if a.slot.done then afinishSlot a else ({ a with cons := .onSlot }, [])
+    | .idle =>
+      -- a slot cancelled by an earlier, cancelled `__anext__` is replaced by a pending one first
+      let a := match a.slot with
+        | .cancelled => { a with slot := .pending }
+        | _ => a
+      if a.slot.done then afinishSlot a else ({ a with cons := .onSlot }, [])
     | _ => (a, [])
   | .wake =>
     match a.cons with
